@@ -7,26 +7,28 @@ from contracts.props import PROPS
 NA = {
  'C04': "agreement between Harper's offsets and node ranges of tree-sitter (C), pulldown-cmark and typst-syntax: external parsers cannot be given checked contracts; the Harper-side glue is str-byte/split/closure code outside Verus and too string-heavy for CBMC",
  'C05': "whole-history hyper-property over an external LruCache keyed by a 64-bit hash plus thread assignment; no function contract expresses it (false under hash collisions; Kani has no threads)",
- 'C06': "statement about ~130k data-derived dictionary entries reached through hashbrown/foldhash ids and an FST; no contract can enumerate the data",
  'C07': "async tokio file I/O, restarts and crash points: neither Verus nor Kani has file-system or crash semantics",
  'C09': "schedules of concurrently polled async handlers behind tower-lsp; Kani has no concurrency, Verus would need a rewritten model",
  'C10': "absence of a side effect across the whole resolved dependency closure; not a function contract",
- 'C11': "LintGroupConfig algebra lives on BTreeMap<String,_>: vstd has no obeys_cmp_spec axiom for String, values_mut/continue-in-for unsupported; CBMC on BTreeMap<String> intractable",
- 'C12': "relational two-run property of the entire parse + rule pipeline; needs contracts on every rule",
- 'C14': "correctness is SipHash collision-freedom plus re-tokenisation stability over hashbrown/DefaultHasher/iterator chains; every step would be an assumed contract",
- 'C16': "histories over a wasm_bindgen object that rebuilds dictionaries and linters; its decidable kernels are exactly C03 (apply) and C13 (remove_overlaps)",
- 'C18': "length preservation hinges on dictionary data (hash-identified canonical capitalisation); routine is peekable().enumerate() code needing a parsed Document",
- 'C19': "the property is serde_json string escaping + BufRead::lines, both external; uuid/chrono values not Arbitrary; nothing of Harper's own left to contract",
 }
 TEXT = {
- 'C01': ("proof", "Panic-freedom and termination are PROVED (Verus, unbounded) for the engine every rule and the plain-English front-end run on: all Span methods, 7 sub-lexers + dispatcher + tiling loop, the URL scanner, the Pattern trait contract (matches <= len) for 13 impls, run_on_chunk, find_all_matches, Wagner-Fischer rows, four condensing passes, Mask::push_allowed. Whitespace lexers and the JSDoc inline-tag scanner are checked by bounded Kani harnesses; Document::parse, Markdown and the comment front-ends by bounded runtime contract checks (all labelled bounded, not counted as proved). Rule bodies and external-parser front-ends are otherwise unverified.", "§3 C01"),
- 'C02': ("proof", "PlainEnglish::parse (real body) is PROVED to return tokens that tile the text exactly (in bounds, ordered, disjoint, gap-free, non-empty) for all inputs, given the sub-lexer contracts (7 proved, 7 assumed of which 6 are Kani-bounded); lexical shape proved for decades, quotes, punctuation, regexish, catch-all; number-suffix letters proved for slices of every length; condense_spaces / condense_dotted_initialisms / condense_number_suffixes are PROVED to preserve the tiling; Space/Newline shape bounded (Kani); the remaining passes, quote twins and Markdown token order bounded (runtime contract checks). Other front-ends unverified.", "§3 C02"),
+ 'C01': ("proof", "Panic-freedom and termination are PROVED (Verus, unbounded) for the engine every rule and the plain-English front-end run on: all Span methods, 7 sub-lexers + dispatcher + tiling loop, the URL scanner, the Pattern trait contract (matches <= len) for 13 impls, run_on_chunk, find_all_matches, Wagner-Fischer rows, four condensing passes, Mask::push_allowed. Whitespace lexers and the JSDoc inline-tag scanner are checked by bounded Kani harnesses; Document::parse, Markdown, Typst, Literate Haskell and the comment front-ends by bounded runtime contract checks (all labelled bounded, not counted as proved). Rule bodies and external-parser front-ends are otherwise unverified.", "§3 C01"),
+ 'C02': ("proof", "PlainEnglish::parse (real body) is PROVED to return tokens that tile the text exactly (in bounds, ordered, disjoint, gap-free, non-empty) for all inputs, given the sub-lexer contracts (7 proved, 7 assumed of which 6 are Kani-bounded); lexical shape proved for decades, quotes, punctuation, regexish, catch-all; number-suffix letters proved for slices of every length; condense_spaces / condense_newlines / condense_dotted_initialisms / condense_number_suffixes are PROVED to preserve the tiling; Space/Newline shape bounded (Kani); the remaining passes, quote twins and Markdown token order bounded (runtime contract checks). Other front-ends unverified.", "§3 C02"),
  'C03': ("proof", "Suggestion::apply (the real body, extracted mechanically) is PROVED equal to the mathematical splice for all (text, span, suggestion) with span inside the text; locality lemmas restate the property over that spec; run_on_chunk is proved to hand every rule a non-empty in-bounds sub-slice. LintGroup::lint (chunk cache) is checked by a bounded runtime contract check only. That every rule's span is inside the text is NOT proved.", "§3 C03"),
- 'C08': ("model_checking", "BOUNDED model checking only (Kani/CBMC): index_to_position equals an independent reference and the position/span round trips hold for every text of length <= 3 (quick) / <= 5 (thorough) over a 6-symbol alphabet covering LF, CR, TAB, 1- and 2-unit UTF-16 characters and a combining mark. Diagnostics, code-action lookup and TextEdit construction are checked by a bounded runtime contract check on 14 texts. The final-line defect D4 is a known finding. Not a proof.", "§3 C08"),
+ 'C08': ("model_checking", "BOUNDED model checking only (Kani/CBMC): index_to_position equals an independent reference and the position/span round trips hold for every text of length <= 3 (quick) / <= 5 (thorough) over a 6-symbol alphabet covering LF, CR, TAB, 1- and 2-unit UTF-16 characters and a combining mark. Diagnostics, code-action lookup and TextEdit construction are checked by a bounded runtime contract check on 19 texts. The final-line defect D4 is a known finding. Not a proof.", "§3 C08"),
  'C13': ("proof", "remove_overlaps (real body, R1-desugared) is PROVED for all inputs with well-formed spans: result is a sub-list of a permutation of the input, pairwise non-overlapping, every dropped lint starts inside a kept one, non-empty input gives non-empty output. Modulo the std sort specification and the remove_indices contract, whose body is checked by exhaustive bounded execution only.", "§3 C13"),
  'C15': ("proof", "edit_distance_min_alloc / edit_distance (real bodies) are PROVED to return the true Levenshtein distance (recursive spec function) for all strings of <= 254 chars with no overflow / out-of-bounds. MergedDictionary's four char-slice queries are PROVED to be the union / first-child-wins of their children. FST-vs-mutable agreement and fuzzy-search results are checked by a bounded runtime contract check only (all dictionaries of <= 3 of 9 words).", "§3 C15"),
- 'C17': ("proof", "NumberSuffix::correct_suffix_for is PROVED (Kani, loop-free, full domain) to equal the English ordinal rule for every integer 0 <= n < 2^53; from_chars/to_chars PROVED for slices of every length (Verus) and all char pairs (Kani); the lint span arithmetic (last two characters) PROVED; the token-merging pass PROVED to keep the tokens tiling. The rule end to end (lexing, merging, lint span, suggestion, re-check) is checked by a bounded runtime contract check on 203 integers.", "§3 C17"),
+ 'C17': ("proof", "NumberSuffix::correct_suffix_for is PROVED (Kani, loop-free, full domain) to equal the English ordinal rule for every integer 0 <= n < 2^53; from_chars/to_chars PROVED for slices of every length (Verus) and all char pairs (Kani); the lint span arithmetic (last two characters) PROVED; the token-merging pass PROVED to keep the tokens tiling. The rule end to end (lexing, merging, lint span, suggestion, re-check) is checked by a bounded runtime contract check on 221 integers at 8 positions.", "§3 C17"),
 }
+TEXT.update({
+ 'C06': ("exploration", "BOUNDED runtime check of the contract of SpellCheck::lint against Dictionary::words_iter (data-dependent; nothing proved): every (quick: every 4th) curated entry the lexer reads as one word, in its listed, capitalised and upper-case form, alone and inside a sentence, American and British dialect, is not reported; mutated non-words are reported exactly once with the exact span and every suggestion is a dictionary word of the dialect.", "§3 C06"),
+ 'C12': ("exploration", "BOUNDED runtime check of the relational contract lint(P ++ D) == lint(P) ++ shift(lint(D), |P|) (whole pipeline; nothing proved) on 110 x 63 pairs of harvested rule-test sentences, P quote-free and terminated, all curated rules on.", "§3 C12"),
+ 'C16': ("exploration", "BOUNDED runtime check of the invariant and operation contracts of harper_wasm::Linter, run natively (nothing proved): spans in bounds and disjoint, problem text exact, JSON round trips, apply_suggestion == splice, ignore/export/clear/import, custom words, configuration overlay undone, to_title_case - on scripted call sequences over 30 texts x 2 languages.", "§3 C16"),
+ 'C11': ("exploration", "BOUNDED runtime check of the contract of LintGroup::lint with respect to its configuration (no verifier reaches BTreeMap<String,_>/LruCache code; nothing proved): on sampled rule-test sentences x every curated rule, all-off reports nothing, the curated configuration equals the union of its rules run one by one, switching a firing rule off removes exactly its lints, random bipartitions compose; 256 user configurations overlay onto the curated defaults with explicit choices winning, unknown names harmless, JSON round trip; merge_from for all sampled pairs.", "§3 C11"),
+ 'C14': ("exploration", "BOUNDED runtime check of the contract of IgnoredLints (hash-based; nothing proved): for every lint of every harvested rule-test sentence, ignoring it hides it and only lints with the same kind, message, suggestions and flagged text, export/import hides the same set, and it stays hidden when a paragraph is inserted before or appended after the text.", "§3 C14"),
+ 'C18': ("exploration", "BOUNDED runtime check of the contract of make_title_case_str (dictionary-data dependent iterator code; nothing proved): every text of <= 3 of 34 fragments (+ 4 of 12) through the plain-English front-end: same length, only letter case (or apostrophe variant) changes, first word-like token capitalised, idempotent.", "§3 C18"),
+ 'C19': ("exploration", "BOUNDED runtime check of the contract read(write(a) ++ write(b)) == a ++ b of the statistics log (serde_json + BufRead::lines are external; nothing proved): every captured text of <= 3 of 16 hostile fragments, every kind of context token and LintKind, configuration records, all batch pairs from 61 batches; summarize counts every lint record once.", "§3 C19"),
+})
 NOTE = {
  'C01': "trusted: Verus/Z3/vstd, Kani/CBMC, std specs listed in contracts/trusted.py, desugarings R2; assumed: found_ok of 7 sub-lexers (6 bounded by Kani, lex_number unchecked), trait contract for the 12 Pattern impls not extracted, remove_indices contract",
  'C02': "trusted as C01; assumed: sub-lexer contracts as above; condensing passes not under contract",
@@ -35,6 +37,13 @@ NOTE = {
  'C13': "trusted: sort_by_key spec, tuple Ord axiom, size_of usize == 8, R1 + closure annotation; remove_indices body bounded-rac only",
  'C15': "trusted: Vec::extend/RangeInclusive iterator model; precondition len <= 254",
  'C17': "trusted: CBMC float model, 64-bit target; lex_number (std parse) unverified",
+ 'C06': "bounded: single-token curated entries, 2 dialects, one carrier sentence; quick = every 4th entry; no proof",
+ 'C12': "bounded: 110 first paragraphs x 63 continuations from the harvested rule-test sentences; plain English; no proof",
+ 'C16': "bounded: scripted call sequences over 30 texts x 2 languages, American dialect; no proof",
+ 'C11': "bounded: sampled sentences x all rules, 3 random bipartitions per sentence, 256 user configurations; no proof",
+ 'C14': "bounded: every lint of the harvested rule-test sentences; two edits (prepend / append a paragraph); no proof",
+ 'C18': "bounded: <= 3 of 34 fragments + 4 of 12; plain English; curated dictionary; no proof",
+ 'C19': "bounded: captured text <= 3 of 16 fragments; batch pairs over a pool of 40 records; no proof",
 }
 checks = []
 for pid in sorted(PROPS):
@@ -47,7 +56,9 @@ for pid in sorted(PROPS):
         'property_id': pid, 'quick_cmd': f'./check {pid} --tier quick', 'thorough_cmd': f'./check {pid} --tier thorough',
         'evidence_file': f'/verif/evidence/{pid}.json', 'replay_cmd_template': './check --replay {path}', 'engine': '+'.join(engines),
         'level_claimed': {'category': cat, 'text': text, 'design_ref': 'DESIGN.md ' + ref}, 'level_note': NOTE[pid],
-        'technique': ('contract-based deductive verification (Verus) of mechanically extracted real code' if 'Verus' in engines else 'Kani function-level harnesses on the real code (bounded stand-in)')
+        'technique': ('contract-based deductive verification (Verus) of mechanically extracted real code' if 'Verus' in engines else
+                      'Kani function-level harnesses on the real code (bounded stand-in)' if 'Kani' in engines else
+                      'bounded runtime check of the function contract on the real code (stand-in for functions outside the reach of Verus and Kani; labelled bounded, nothing proved)')
                      + ('; Kani complete loop-free harnesses' if pid == 'C17' else '') + ('; Kani bounded harnesses for functions outside Verus' if pid in ('C01', 'C02') else ''),
     })
 m = {
@@ -60,11 +71,11 @@ m = {
    'kind_free_text': 'contract-based deductive verification: mechanical extraction of the real functions + spliced requires/ensures/invariants, discharged by Verus/Z3'},
   {'name': 'kani overlay', 'path': '/verif/kani', 'serves_properties': [p for p in sorted(PROPS) if PROPS[p].get('kani_quick')],
    'kind_free_text': 'Kani harnesses appended (cfg(kani)) to a scratch copy of /repo: complete loop-free full-domain proofs, or bounded stand-ins labelled as such'},
-  {'name': 'rac overlay', 'path': '/verif/rac', 'serves_properties': [p for p in sorted(PROPS) if PROPS[p].get('rac')], 'kind_free_text': 'runtime contract checks against the real code (cfg(test) overlay): counterexample search after a failed obligation; bounded stand-in for remove_indices'},
+  {'name': 'rac overlay', 'path': '/verif/rac', 'serves_properties': [p for p in sorted(PROPS) if PROPS[p].get('rac')], 'kind_free_text': 'runtime contract checks against the real code (cfg(test) overlay): counterexample search after a failed obligation; bounded stand-ins (labelled bounded) for functions outside the reach of both verifiers'},
  ],
  'checks': checks,
  'not_applicable': [{'property_id': k, 'reason': v} for k, v in sorted(NA.items())],
- 'notes': 'exit 2 = undecided (anchor lost / unsupported construct / solver limit / only a proof hint fails and no failing input exists within the RAC bound), never an alarm. Fix commits in /repo: ccc1c2a (D1 Invert), 1b8b2a1 (D2 jsdoc), 903b462 (D3 dotted initialisms), 70ec15d (D6 number suffix). Known finding: D4 (pos_conv final line), see known_findings.txt.',
+ 'notes': 'exit 2 = undecided (anchor lost / unsupported construct / solver limit / only a proof hint fails and no failing input exists within the RAC bound), never an alarm. Eleven fix commits in /repo (D1-D3, D6-D13) and two known findings (D4 pos_conv final line, D5 edit distance beyond 254 chars) are listed in known_findings.txt and DESIGN.md section 4.',
 }
 json.dump(m, open('/verif/MANIFEST.json', 'w'), indent=1)
 print('MANIFEST.json written:', [c['property_id'] for c in checks])
